@@ -8,6 +8,7 @@ package interp
 // external or because they use "unsafe" or "reflect" operations.
 
 import (
+	"go/types"
 	"bytes"
 	"math"
 	"os"
@@ -153,6 +154,14 @@ func ext۰math۰Float64bits(fr *frame, args []value) value {
 }
 
 func ext۰math۰Float32frombits(fr *frame, args []value) value {
+	if _, ok := args[0].(sym); ok {
+		// a float32 made of symbolic bits: an arbitrary value (over-approximation: no relation to the
+		// bits is kept; used by the hostile-input harnesses, where the value is only stored)
+		fr.i.pc.stats.Assumptions["math.Float32frombits of symbolic bits is an arbitrary real value (no relation to the bits kept)"] = true
+		r := vfNondetReal(fr, []value{"float32frombits"}).(sym)
+		r.bk = types.Float32
+		return r
+	}
 	return math.Float32frombits(args[0].(uint32))
 }
 
